@@ -105,7 +105,7 @@ def _observe():
         logf = os.path.join(logdir, "nest.log")
         depth = cfg["nest"]["depth"]
         Parallel(n_jobs=cfg["nest"]["outer_n"], batch_size=1, **kw)(
-            delayed(c15_tasks.nested)(0, depth, cfg["nest"]["inner_n"], logf, [i]) for i in range(cfg["nest"]["outer_n"] + 1))
+            delayed(c15_tasks.nested)(0, depth, cfg["nest"]["inner_n"], logf, [i], cfg["nest"].get("mid_style", "default")) for i in range(cfg["nest"]["outer_n"] + 1))
         rows = [l.split() for l in open(logf).read().splitlines()]
         out["nest"] = dict(rows=[[int(r[0]), int(r[1]), int(r[2]), r[3], int(r[4]), int(r[5])] for r in rows], caller=caller, cfg=cfg["nest"])
 
